@@ -5,7 +5,8 @@
 # e.g. during a background sweep); the worktree is removed afterwards.
 # Prints one line per check: <prop> exit=<code> <first violation key or ->.
 set -u
-patch="$1"; tier="$2"; shift 2
+ROOT="$(cd "$(dirname "${BASH_SOURCE[0]}")/.." && pwd)"
+patch="$(readlink -f "$1")"; tier="$2"; shift 2
 if [ "${MUT_WORKTREE:-0}" = 1 ]; then
   wt=/tmp/wt-mut-$$
   git -C /repo worktree add -q --detach $wt HEAD || exit 2
@@ -19,7 +20,7 @@ else
   if ! git -C /repo apply "$patch"; then echo "runmutant: patch does not apply" >&2; exit 2; fi
 fi
 for p in "$@"; do
-  out=$(cd /verif && VERIF_EVIDENCE_DIR=/verif/.build/mutant-evidence bin/check "$p" "$tier" 2>&1); code=$?
+  out=$(cd $ROOT && VERIF_EVIDENCE_DIR=$ROOT/.build/mutant-evidence bin/check "$p" "$tier" 2>&1); code=$?
   key=$(echo "$out" | grep -m1 '^  key:' | sed 's/^  key: //')
   echo "$p exit=$code ${key:--}"
 done
